@@ -165,6 +165,8 @@ def run_scenario(sc):
                     net.set_up(n, True)
             elif op == "loading":
                 net.gc.loading = e["on"]
+            elif op == "deny_group":
+                net.gc.deny = e["on"]
             elif op == "add_partitions":
                 from simkit.cluster import PartitionLog
                 cur = len(net.topics[e["topic"]])
@@ -345,6 +347,7 @@ def run_scenario(sc):
         out["trace"] = [e for e in net.trace if e["ev"] in keep or (e["ev"] == "request" and (e["api"] in (
             "JoinGroup", "SyncGroup", "LeaveGroup", "OffsetCommit", "FindCoordinator") or e.get("fault")))]
         out["vtime"] = loop.time()
+        out["spin_steps"] = loop.spin_steps
         return out
 
     try:
